@@ -97,8 +97,20 @@ func (m *Mutex) Lock() {
 			return
 		}
 		m.q.waiters = append(m.q.waiters, t)
-		t.BlockOn("mutex", m)
+		t.BlockOn("mutex:"+lockCaller(), m)
 	}
+}
+
+// lockCaller names the function that is taking the lock (skipping thin wrappers
+// such as drpcstream's inspectMutex).
+func lockCaller() string {
+	for skip := 3; skip < 6; skip++ {
+		n := callerFunc(skip)
+		if n != "Lock" && n != "TryLock" && n != "RLock" {
+			return n
+		}
+	}
+	return "?"
 }
 
 // TryLock tries to lock m.
